@@ -532,7 +532,10 @@ def getattr_value(eng, v, attr):
         return h(eng, v)
     m = eng.methods.get((kind, attr))
     if m is not None:
-        return Builtin(lambda e, *a, **k: m(e, v, *a, **k), '%s.%s' % (kind, attr))
+        b_ = Builtin(lambda e, *a, **k: m(e, v, *a, **k), '%s.%s' % (kind, attr))
+        if getattr(m, 'star_ok', False):
+            b_.star_ok = True
+        return b_
     py = _PY_ATTRS.get(kind)
     if py is not None and attr not in py and not eng.spec:
         if getattr(eng, 'assumed_kinds', False):
@@ -1721,6 +1724,38 @@ def set_pop(eng, s):
     return wrap(s.ty.t, x)
 
 
+def set_union(eng, s, *others):
+    """s.union(*others): a new set.  others may be one StarArgs of a symbolic sequence of sets (set().union(*(f(x) for x in xs))):
+    then the result is a fresh set with exactly the members of s and of the elements (Skolem witness for the converse)."""
+    from .interp import StarArgs
+    if len(others) == 1 and isinstance(others[0], StarArgs):
+        it = make_iter(eng, others[0].seq)
+        probe = it.get(z3.Int('probe!'))
+        st = type_of(probe)
+        if not isinstance(st, TSet):
+            raise EngineError('union(*xs) of elements that are not sets')
+        base = to_z3(s, st) if not (isinstance(s, Box) and s.ty is None) else st.empty()
+        r = eng.fresh(st, 'union')
+        n = _int(it.n)
+        i = z3.FreshInt('ui')
+        x = z3.FreshConst(st.t.sort(), 'ux')
+        w = z3.Function('union_w!%d' % eng.fresh_n, st.t.sort(), z3.IntSort())
+        eng.fresh_n += 1
+        eng.assume(z3.ForAll([i, x], z3.Implies(z3.And(0 <= i, i < n, z3.Select(to_z3(it.get(i), st), x)), z3.Select(r, x))))
+        eng.assume(z3.ForAll([x], z3.Implies(z3.Select(base, x), z3.Select(r, x))))
+        eng.assume(z3.ForAll([x], z3.Implies(z3.Select(r, x), z3.Or(z3.Select(base, x), z3.And(
+            0 <= w(x), w(x) < n, z3.Select(to_z3(it.get(w(x)), st), x))))))
+        return Box(st, r)
+    r = s if not (isinstance(s, Box) and s.ty is None) else None
+    for o in others:
+        o = b_set(eng, o)
+        r = o if r is None else set_binop(eng, 'BitOr', r, o)
+    if r is None:
+        return Box(None, kind='set')
+    return Box(type_of(r), to_z3(r))
+set_union.star_ok = True
+
+
 def set_update(eng, s, *others):
     for o in others:
         it = make_iter(eng, o)
@@ -2288,6 +2323,7 @@ def install(eng):
     M[('set', 'pop')] = set_pop
     M[('set', 'remove')] = set_remove
     M[('set', 'update')] = set_update
+    M[('set', 'union')] = set_union
     M[('set', 'copy')] = list_copy
     M[('cstr', 'find')] = lambda e, s, c: cstr_find(e, s, c, False)
     M[('cstr', 'rfind')] = lambda e, s, c: cstr_find(e, s, c, True)
